@@ -311,6 +311,7 @@ type opj struct {
 	M      []int  `json:"m,omitempty"`
 	Buf    bool   `json:"buf,omitempty"`
 	Closes bool   `json:"closes,omitempty"`
+	Seen   bool   `json:"seen,omitempty"` // filled in by the real-transport runner
 }
 
 func (o opj) coq() string {
@@ -330,7 +331,7 @@ func (o opj) coq() string {
 	case "crash":
 		return fmt.Sprintf("OCrash %d", o.P)
 	case "crashsending":
-		return fmt.Sprintf("OCrashSending %d", o.P)
+		return fmt.Sprintf("OCrashSending %d %s", o.P, lib.Bool(o.Seen))
 	case "abandoneddial":
 		return fmt.Sprintf("OAbandonedDial %d %s", o.P, lib.Bool(o.Closes))
 	case "restart":
